@@ -67,6 +67,9 @@ def build(keys_values, m, chooser=None, aug=None, prune=None, path=''):
         val = keys_values[keys[0]]
         if aug:
             ex = aug[0](val)
+            if len(aug) > 2 and aug[2]:
+                # the extra owns a reference (e.g. a currency collection with extra currencies): ahmn_leaf extra:Y value:X - the extra's reference comes first
+                return SCell(bits + ex + val, [SCell('1010' + ex)]), ex
             return SCell(bits + ex + val), ex
         return SCell(bits + val), None
     left = {k[l + 1:]: v for k, v in keys_values.items() if k[l] == '0'}
@@ -82,6 +85,9 @@ def build(keys_values, m, chooser=None, aug=None, prune=None, path=''):
         exs.append(ex)
     if aug:
         ex = aug[1](exs[0], exs[1])
+        if len(aug) > 2 and aug[2]:
+            # ahmn_fork left:^ right:^ extra:Y - the extra's reference follows the two children
+            return SCell(bits + ex, subs + [SCell('1010' + ex)]), ex
         return SCell(bits + ex, subs), ex
     return SCell(bits, subs), None
 
@@ -92,3 +98,13 @@ def pruned_of(c):
     h = hashlib.sha256(repr((c.bits, len(c.refs))).encode()).digest()
     data = bytes([1, 1]) + h + bytes([0, 1])
     return SCell(''.join(format(x, '08b') for x in data), [], exotic=True, mask=1)
+
+
+def intern(c, table=None):
+    """hash-cons a specification tree: equal sub-trees become one object (as in a bag of cells, where equal cells are stored once)"""
+    table = {} if table is None else table
+    kids = [intern(r, table) for r in c.refs]
+    key = (c.bits, c.exotic, c.mask, tuple(id(k) for k in kids))
+    if key not in table:
+        table[key] = SCell(c.bits, kids, c.exotic, c.mask)
+    return table[key]
